@@ -21,7 +21,7 @@ func main() {
 	case "case":
 		runCase(os.Args[2], os.Args[3], os.Args[4:])
 	case "selftest":
-		ld, err := vm.Load("/repo", []vm.HarnessFile{checks.ZZVrtFile()}, []string{checks.PkgPath("internal/zzvrt"), checks.PkgPath("internal/interpreter")})
+		ld, err := vm.Load(checks.RepoDir, []vm.HarnessFile{checks.ZZVrtFile()}, []string{checks.PkgPath("internal/zzvrt"), checks.PkgPath("internal/interpreter")})
 		if err != nil {
 			fmt.Println(err)
 			os.Exit(3)
@@ -91,7 +91,7 @@ func runCase(checkID, match string, _ []string) {
 	for _, d := range chk.LoadPkgs {
 		patterns = append(patterns, checks.PkgPath(d))
 	}
-	ld, err := vm.Load("/repo", files, patterns)
+	ld, err := vm.Load(checks.RepoDir, files, patterns)
 	if err != nil {
 		fmt.Println("load:", err)
 		os.Exit(3)
